@@ -223,8 +223,15 @@ def task_laws():
 
 
 def run(which):
-    res = variable_laws() if which == "C13" else task_laws()
-    return res
+    """a law whose evaluation raises is a violated law, not a crash of the campaign"""
+    try:
+        return variable_laws() if which == "C13" else task_laws()
+    except Exception as ex:
+        import traceback
+        tb = traceback.extract_tb(ex.__traceback__)
+        where = next((f"{os.path.basename(f.filename)}:{f.lineno} {f.name}" for f in reversed(tb) if "pyvolutionary" in f.filename), "?")
+        mine = next((f"laws.py:{f.lineno}" for f in reversed(tb) if f.filename.endswith("laws.py")), "?")
+        return [(which, f"law evaluation at {mine}", True, ""), (which, f"law evaluation at {mine}", False, f"{type(ex).__name__}: {ex} (in {where})")]
 
 
 if __name__ == "__main__":
